@@ -47,11 +47,43 @@ def explore(task, max_paths=MAX_PATHS, start=None, split_at=None):
     return done, []
 
 
+def canonical_sites(c, yo, ylist, node):
+    """yield sites are numbered in source order; a contract may name them by WHAT they yield instead
+    (site_keys(sites) with sites = [(source ordinal, source of the yielded expression, source of the enclosing
+    statement)] -> canonical ordinals), so that reordering the arms of an if/elif chain or of a try statement does
+    not move a clause to another yield"""
+    key = getattr(c, 'site_keys', None)
+    if key is None or not ylist:
+        return yo
+    import ast as _ast
+    parent = {}
+    for n in _ast.walk(node):
+        if isinstance(n, _ast.stmt):
+            for sub in _ast.walk(n):
+                if isinstance(sub, (_ast.Yield, _ast.YieldFrom)) and sub in ylist:
+                    # innermost enclosing simple statement wins (walk visits outer statements first)
+                    if not isinstance(n, (_ast.If, _ast.While, _ast.For, _ast.Try, _ast.With, _ast.FunctionDef)):
+                        parent[id(sub)] = n
+    sites = [(k, _ast.unparse(y.value) if getattr(y, 'value', None) is not None else '',
+              _ast.unparse(parent[id(y)]) if id(y) in parent else '') for k, y in enumerate(ylist)]
+    ks = list(key(sites))
+    if sorted(ks) != list(range(len(ylist))):
+        raise Unsupported('%s: its yield sites are not the ones the contract names (%s)' % (c.qual, ks))
+    return {id(y): k2 for y, k2 in zip(ylist, ks)}
+
+
 def verify_function(c, variant=None, vname='', start=None, split_at=None):
     """verify the real body of c.qual against contract c; returns (obligations, info)"""
     func = source.unwrap(source.resolve(c.qual))
     node, ms = source.node_of(func)
     yo, ylist = source.yield_ordinals(node)
+    info0 = dict(qual=c.qual, variant=vname, paths=0, feasible_paths=0, cut=0, unsupported=[], yields=len(ylist), loops=0,
+                 assumed=set(), callees=set(), pending=[])
+    try:
+        yo = canonical_sites(c, yo, ylist, node)
+    except Unsupported as u:
+        info0['unsupported'].append(str(u))
+        return [], info0
     lo, llist = source.loop_ordinals(node)
     info = dict(qual=c.qual, variant=vname, paths=0, feasible_paths=0, cut=0, unsupported=[],
                 yields=len(ylist), loops=len(llist), assumed=set(), callees=set())
